@@ -42,8 +42,11 @@ Ref World::apply_macros(const Op& op)
    switch (code) {
    case OP_get_string_huge: {
       // lengths around the over-size threshold (65536) and the pool capacity (1 MiB); the pool may already be partly filled
-      static const size_t sizes[] = { 65530, 65537, 70000, 300000, 700000, 1048577, 1200000 };
-      const size_t n = sizes[uint64_t(op.a[0]) % 7];
+      // half of them within 9 bytes of a capacity boundary (byte by byte), the others well inside a size class
+      static const size_t bases[] = { 65536 - 8, 65536, 1048576 - 8, 1048576, 70000, 300000, 700000, 1200000 };
+      const uint64_t a0 = uint64_t(op.a[0]);
+      size_t n = bases[a0 % 8];
+      if (a0 % 8 < 4) n = n + size_t((a0 / 8 + uint64_t(op.a[2]) * 7 + uint64_t(op.a[3]) * 3) % 19) - 9;      // selectors are small: mix three of them
       std::u8string w(n, char8_t('a' + uint64_t(op.a[1]) % 26));
       for (size_t i = 0; i < n; i += 4099) w[i] = char8_t('A' + (i / 4099 + uint64_t(op.a[1])) % 26);
       w[n - 1] = char8_t('0' + uint64_t(op.a[1]) % 10);
